@@ -50,6 +50,9 @@ func Generate(r *rand.Rand, profile string) *Scenario {
 	if profile == "chains" {
 		return generateChains(r)
 	}
+	if profile == "hetero" {
+		return generateHetero(r)
+	}
 	if profile == "bindfail" || profile == "overhead" || profile == "nested" || profile == "sharers" {
 		return generateTight(r, profile)
 	}
@@ -82,7 +85,7 @@ func Generate(r *rand.Rand, profile string) *Scenario {
 	gpuMem := pick(16000, 40000, 80000)
 	// nodes with different devices: a gpu-memory request is then a different portion of a device (and a different
 	// charge to the queues) on every node; requests are chosen so that every portion is a whole number of 1/100 GPU
-	hetero := (profile == "fraction" || profile == "mixed" || profile == "sharers") && nn > 1 && chance(0.35)
+	hetero := (profile == "fraction" || profile == "mixed" || profile == "constr") && nn > 1 && chance(0.35)
 	for i := 0; i < nn; i++ {
 		n := Node{Name: fmt.Sprintf("n%d", i+1), Cpu: pick(4000, 8000, 16000, 32000), Mem: pick(16000, 64000), Pods: 110,
 			Gpus: pick(0, 1, 2, 2, 4, 4), GpuMem: gpuMem, Ready: 1}
@@ -1555,6 +1558,90 @@ func generateChains(r *rand.Rand) *Scenario {
 			add(leaf, size, 50, 0, age)
 			age -= 300
 		}
+	}
+	sc.Normalize()
+	return sc
+}
+
+
+// generateHetero: nodes whose GPU devices differ in memory (80 000 / 40 000 / 16 000 MiB) and pods that ask for GPU
+// MEMORY: the same request is 0.15 of a device on one node and 0.75 on another, and that is what the queues are
+// charged with. A queue chain with a GPU limit (or non-preemptible jobs and a deserved quota) that holds one or two
+// such pods but not all of them; the pods are drawn to the big devices first (higher score) but can only land on the
+// small ones (node selector / required affinity, or the big node's GPUs are taken by whole-GPU pods of another
+// queue). Every portion is a whole number of 1/100 GPU. 1-2 cycles.
+func generateHetero(r *rand.Rand) *Scenario {
+	pick := func(vs ...int) int { return vs[r.Intn(len(vs))] }
+	chance := func(p float64) bool { return r.Float64() < p }
+	sc := &Scenario{Class: "hetero"}
+	sc.Cfg = Cfg{Placement: []string{"binpack", "spread"}[r.Intn(2)], Consolidation: pick(0, 1), Signatures: pick(0, 1),
+		ConsReclaim: 0, SatMult: 1000, Cycles: pick(1, 2), Env: []string{"closed", "stall"}[r.Intn(2)], FullHier: 1}
+	sizes := []int{80000, 16000}
+	if chance(0.4) {
+		sizes = []int{80000, 40000, 16000}
+	}
+	if chance(0.5) {
+		sizes[0], sizes[len(sizes)-1] = sizes[len(sizes)-1], sizes[0] // the order of the nodes must not matter
+	}
+	for i, m := range sizes {
+		sc.Nodes = append(sc.Nodes, Node{Name: fmt.Sprintf("n%d", i+1), Cpu: 32000, Mem: 64000, Pods: 110, Gpus: 2, GpuMem: m, Ready: 1,
+			Labels: map[string]string{"dev": fmt.Sprintf("m%d", m/1000)}})
+	}
+	small := 0
+	for i := range sc.Nodes {
+		if sc.Nodes[i].GpuMem == 16000 {
+			small = i + 1
+		}
+	}
+	np := chance(0.5) // non-preemptible jobs against the deserved quota instead of any job against the limit
+	sc.Queues = []Queue{{Name: "d1", Parent: 0, Prio: 100, GQ: -1, GL: -1, GW: 1, CQ: -1, CL: -1, MQ: -1, ML: -1}}
+	lim := pick(1000, 1000, 1500, 2000)
+	q1 := Queue{Name: "q1", Parent: 1, Prio: 100, GQ: lim, GL: lim, GW: 1, CQ: -1, CL: -1, MQ: -1, ML: -1}
+	if np {
+		q1.GL = -1
+	}
+	if chance(0.3) {
+		// the bound sits on the department instead
+		sc.Queues[0].GQ, sc.Queues[0].GL = q1.GQ, q1.GL
+		q1.GQ, q1.GL = pick(2000, 4000), -1
+	}
+	sc.Queues = append(sc.Queues, q1, Queue{Name: "q2", Parent: 1, Prio: 100, GQ: 4000, GL: -1, GW: 1, CQ: -1, CL: -1, MQ: -1, ML: -1})
+	k := 0
+	add := func(queue, pre int, p Pod) {
+		k++
+		ls := -1
+		if p.Phase == "R" {
+			ls = 36000
+		}
+		sc.Jobs = append(sc.Jobs, Job{Name: fmt.Sprintf("j%d", k), Queue: queue, Prio: []int{50, 100}[1-pre], Preempt: pre, Min: 1, Age: 600 + 60*k, LastStart: ls})
+		p.Name, p.Job, p.Cpu, p.Mem = fmt.Sprintf("j%d-p1", k), k, 500, 500
+		sc.Pods = append(sc.Pods, p)
+	}
+	blockBig := chance(0.5) // the big devices are all taken by whole-GPU pods of the other queue
+	if blockBig {
+		for i := range sc.Nodes {
+			if i+1 != small {
+				add(3, 1, Pod{Gpu: 2, Phase: "R", Node: i + 1})
+			}
+		}
+	}
+	pre := 1
+	if np {
+		pre = 0
+	}
+	for c := 0; c < pick(2, 3, 3); c++ {
+		p := Pod{GpuMem: pick(12000, 12000, 8000), Devs: 1, Phase: "P"}
+		if !blockBig {
+			if chance(0.5) {
+				p.Sel = map[string]string{"dev": "m16"}
+			} else {
+				p.AffNot = map[string]string{"dev": "m80"}
+				if len(sizes) == 3 {
+					p.AffIn = map[string]string{"dev": "m16"}
+				}
+			}
+		}
+		add(2, pre, p)
 	}
 	sc.Normalize()
 	return sc
